@@ -6,7 +6,7 @@ CONSTANTS
  WrapperSubs = "replay"
  Template = FALSE
  TemplateFix = FALSE
- QCalls = {1, 2, 3}
+ QCalls = {1, 2}
  Duties = {1}
  NoPart <- NoDuties
  Solo = TRUE
